@@ -17,4 +17,5 @@ def run(ctx):
     ctx.children(b, shards, run='TestC12$', env={'VERIF_C12_HIST': nh}, timeout=1200)
     ctx.children(b, 1, run='TestC12Pkg', timeout=300)
     ctx.children(b, 1, run='TestC12Var', env={'VERIF_C12_VARHIST': '60' if not ctx.thorough else '1500'}, timeout=600, what='TestC12Var')
+    ctx.children(b, 1, run='TestC12ReceiverKinds', timeout=300, what='TestC12ReceiverKinds')
     ctx.children(b, 1, run='TestC12AfterRefusal', timeout=300, what='TestC12AfterRefusal')
